@@ -7,7 +7,8 @@ T = "LospanVerif.Tie."
 def thms(mod, names):
     return {mod: [mod + "." + n for n in names]}
 
-PIPE_TIES = {**thms(T + "Processor", ["tie_uplinkLookup", "tie_uplinkHandler", "tie_joinVerify", "tie_joinHandler", "tie_encoder", "tie_joinRequestSize"]), **thms(T + "Server", ["tie_outputBufferLocked"])}
+PIPE_TIES = {**thms(T + "Processor", ["tie_uplinkLookup", "tie_uplinkHandler", "tie_joinVerify", "tie_joinHandler", "tie_encoder", "tie_joinRequestSize"]), **thms(T + "Server", ["tie_outputBufferLocked"]),
+             **thms(T + "Storage", ["tie_advanceFCntUp", "tie_nextFCntDn", "tie_updateState", "tie_messageLifeCycle"])}
 
 PROPS = {
     "C01": {
@@ -25,10 +26,11 @@ PROPS = {
         "trusted_base": ["LoRaWAN 1.0 sections 4.3.3 and 4.4 transcribed as Spec/Lorawan.lean"],
     },
     "C03": {
-        "theorems": thms(P + "C03", ["C03_old_counter_rejected", "C03_accept_moves_counter", "C03_failed_write_stops", "updateState_sets"]),
+        "theorems": {**thms(P + "C03", ["C03_accepted_strictly_increasing", "C03_accepted_below_stored", "C03_no_second_acceptance", "C03_record_needs_accept", "C03_old_counter_rejected", "C03_failed_write_stops"]),
+                     **thms("LospanVerif.Proofs.Counters", ["cinv_run", "eff_step"])},
         "ties": PIPE_TIES,
         "engines": ["pipeseq", "pipectl"],
-        "assumptions": ["sequential histories (one frame in flight); see known findings for concurrent delivery"],
+        "assumptions": ["each storage operation is atomic (AdvanceFCntUp is one SQL statement; Tie.Storage)", "the link from 'AdvanceFCntUp succeeded for (device, counter)' to 'one inbox row' is the handler's program order (C03_record_needs_accept + C10_inbox_only_after_counter), not a single composed theorem"],
         "trusted_base": ["pipeline handlers transcribed as thread programs in Model/Pipeline.lean"],
     },
     "C04": {
@@ -53,10 +55,11 @@ PROPS = {
         "trusted_base": ["EU868 maximum payload table transcribed in Model/Pipeline.lean (maxPayload)"],
     },
     "C07": {
-        "theorems": thms(P + "C07", ["C07_encodes_with_snapshot_counter", "C07_persists_before_handover", "C07_failed_write_no_frame", "C07_handover"]),
+        "theorems": {**thms(P + "C07", ["C07_issued_strictly_increasing", "C07_issued_below_stored", "C07_next_is_fresh", "C07_encodes_with_issued_counter", "C07_persists_before_handover", "C07_failed_write_no_frame", "C07_handover"]),
+                     **thms("LospanVerif.Proofs.Counters", ["cinv_run", "eff_step"])},
         "ties": PIPE_TIES,
         "engines": ["pipeseq", "pipectl"],
-        "assumptions": ["sequential histories; see known findings for an uplink handler racing the previous encoder"],
+        "assumptions": ["NextFCntDn is atomic (one transaction inside the storage mutex; Tie.Storage)", "the link from 'counter handed out' to 'frame emitted with it' is the encoder's program order (C07_encodes_with_issued_counter + C07_handover), not a single composed theorem", "a join starts a new session (new keys); uniqueness is per session and until the 16-bit counter wraps"],
         "trusted_base": ["pipeline handlers transcribed as thread programs in Model/Pipeline.lean"],
     },
     "C08": {
@@ -75,9 +78,9 @@ PROPS = {
     },
     "C10": {
         "theorems": {**thms(P + "C10", ["C10_crash_keeps_db", "C10_inbox_only_after_counter", "C10_keys_only_after_nonce"]),
-                     **thms(P + "C03", ["C03_failed_write_stops", "C03_accept_moves_counter"]),
+                     **thms(P + "C03", ["C03_failed_write_stops", "C03_record_needs_accept", "C03_accepted_below_stored", "C03_no_second_acceptance"]),
                      **thms(P + "C05", ["C05_second_insert_fails", "C05_failed_insert_stops"]),
-                     **thms(P + "C07", ["C07_persists_before_handover", "C07_failed_write_no_frame"])},
+                     **thms(P + "C07", ["C07_persists_before_handover", "C07_failed_write_no_frame", "C07_issued_below_stored"])},
         "ties": PIPE_TIES,
         "engines": ["pipeseq", "pipectl"],
         "assumptions": ["a crash is modelled as losing threads, output buffer and scheduler state while the database keeps every completed statement (SQLite durability trusted)"],
@@ -173,9 +176,9 @@ MANIFEST_TEXT = {
         "technique": "Lean 4 proof (model = spec for cipher and MIC) + differential correspondence against an executable Lean LoRaWAN device",
     },
     "C03": {
-        "level": "Lean theorems on the accept step for every state: a strict device's frame with a counter below the snapshot's expected value is dropped without effect; otherwise the stored counter becomes counter+1 in the very step that lets the handler continue, and a failed write stops it. Sequential histories (duplicates, gaps, regressions, 0/65534/65535, restarts) are decided by state comparison with the model on the real pipeline. The all-interleavings clause is NOT claimed proved: see known findings.",
-        "note": "partial: interleavings of concurrent copies are a recorded finding (read-check-write on snapshots), not decided by a theorem",
-        "technique": "Lean 4 proof (accept rule stated outright) + regenerated handler skeleton tie + sequential trace correspondence",
+        "level": "Lean theorems for EVERY event list of the pipeline transition system (all interleavings of handler/scheduler/encoder steps at storage-operation granularity, any number of frames and devices, injected faults, crashes): the counters accepted for a device strictly increase within a session (C03_accepted_strictly_increasing), every accepted counter stays below the stored one (C03_accepted_below_stored), so a copy or an older counter can never move the counter again (C03_no_second_acceptance); a strict device's frame reaches the inbox step only through a successful conditional update for its counter (C03_record_needs_accept). The model is tied by regenerated facts (handler call order and error dispositions, SQL text of AdvanceFCntUp) and by trace validation of the real goroutines under controlled schedules (copies, uplink vs encoder), plus sequential histories judged by a reference observer.",
+        "note": "partial only in that atomicity of one SQL statement and of a mutex-protected transaction is trusted (SQLite), and the step 'accepted counter -> one inbox row' is program order proved per step, not one composed theorem",
+        "technique": "Lean 4 proof (invariant by induction over all event lists) + regenerated facts + trace correspondence under controlled schedules",
     },
     "C04": {
         "level": "Lean theorems for every block function: a join-request passes the first handler step only if 23 octets, registered device, MIC under its AppKey over the first 19 octets (otherwise no effect); stored session keys = spec derivation on the octets on the air; the emitted join-accept is decrypted/verified/read by the spec device exactly as meant (given D inverts E); the library's join-request encoder = spec. End to end on the real pipeline: every honoured join's stored keys/address/counters equal what the Lean device derives from the emitted join-accept; forged/altered/wrong-length/swapped-EUI requests have no effect.",
@@ -193,9 +196,9 @@ MANIFEST_TEXT = {
         "technique": "Lean 4 proof (sorted-insertion minimum, buffer round trip) + trace correspondence",
     },
     "C07": {
-        "level": "Lean theorems on the encoder model: a data downlink is encoded with the snapshot's FCntDn, the stored counter becomes +1 before the hand-over step, a failed write ends the encoder without a frame. Sequential histories: state comparison + oracle (no (device, NwkSKey, FCnt) twice among emitted frames decoded by the Lean device). Interleaving with the next uplink handler: recorded finding.",
-        "note": "partial: the race between an uplink handler and the previous encoder is a recorded finding",
-        "technique": "Lean 4 proof (encoder steps stated outright) + trace correspondence + uniqueness oracle",
+        "level": "Lean theorems for EVERY event list: the downlink counters handed out for a device strictly increase within a session (C07_issued_strictly_increasing), stay below the stored counter (C07_issued_below_stored, also across crashes) and the next one is fresh (C07_next_is_fresh); the encoder encodes with exactly the counter handed out, after it has been stored past, and only its last step emits (C07_encodes_with_issued_counter, C07_persists_before_handover, C07_handover); a failed fetch yields no frame. Tied by facts (encoder call order, NextFCntDn is one critical section with both statements in one transaction) and by trace validation under the uplink-vs-encoder schedules; every emitted frame is decoded by the Lean device and (session key, counter) checked unique.",
+        "note": "partial only in that atomicity of the NextFCntDn transaction is trusted (SQLite + mutex) and 'handed out -> emitted with it' is program order proved per step",
+        "technique": "Lean 4 proof (invariant by induction over all event lists) + regenerated facts + trace correspondence + uniqueness oracle",
     },
     "C08": {
         "level": "Lean theorems on the outbox operations for every database state: invariant acknowledged => sent kept by every operation; only an acknowledging uplink acknowledges and only sent rows with its counter; an uplink without ACK re-queues exactly the confirmed, sent, unacknowledged rows; only unsent rows are transmitted (unconfirmed ones therefore at most once). Histories decided by state comparison of the outbox rows (sent?/acked?/fcnt) after every event on the real pipeline.",
@@ -203,14 +206,14 @@ MANIFEST_TEXT = {
         "technique": "Lean 4 proof (life-cycle invariant by cases over operations) + trace correspondence",
     },
     "C09": {
-        "level": "Lean theorems on the output buffer for every state: a pending acknowledgement always yields a frame with the ACK flag (even with nothing else to send) and taking it clears the flag; an entry with nothing pending yields nothing and is removed. Histories (confirmed/unconfirmed, valid/invalid, duplicates, with/without queued data): emitted frames compared with the model after every event on the real pipeline. The concurrent-copies clause depends on C03's recorded finding.",
-        "note": "partial: copies delivered concurrently share C03's finding",
-        "technique": "Lean 4 proof (buffer decision logic) + trace correspondence",
+        "level": "Lean theorems on the output buffer for every state: a pending acknowledgement always yields a frame with the ACK flag (even with nothing else to send) and taking it clears the flag; an entry with nothing pending yields nothing and is removed. The single-answer clause for concurrent copies of a strict device follows from C03's all-schedules theorem (only one copy passes the counter step) and is exercised under controlled schedules of 2..3 copies on the real pipeline; sequential histories are judged by the reference observer (exactly one ACK answer per accepted confirmed uplink, none for rejected frames, no answer when nothing is pending); the receive-window engine checks with a real 400 ms window that the buffer is read when the window closes.",
+        "note": "partial: the receive-window timer is runtime behaviour (checked by the rxwindow engine, not by a theorem)",
+        "technique": "Lean 4 proof (buffer decision logic; C03 invariant) + trace correspondence + reference observer + timed free-running runs",
     },
     "C10": {
-        "level": "Lean theorems: inbox rows appear only in the step after the counter write; keys change only after the handler's own nonce insert; the downlink counter is stored before the hand-over; each of the three writes, when it fails, stops its handler; a crash keeps the database and drops everything volatile. Ordering and error dispositions of the real handlers are regenerated facts tied to the model; restarts at quiescent points are exercised by pipeseq.",
-        "note": "crash/fault injection at every gate of the real handlers is the controlled engine (in progress); real process death and fsync are simulated/trusted",
-        "technique": "Lean 4 proof (durable-before-visible step ordering) + regenerated call-order/error-disposition facts + trace correspondence",
+        "level": "Lean theorems: inbox rows appear only in the step after the counter update; keys change only after the handler's own nonce insert; the downlink counter is stored past before the frame exists; each of these writes, when it fails, stops its handler; a crash keeps the database and drops everything volatile; and, for every event list with crashes and faults anywhere, accepted uplink counters and handed-out downlink counters stay below the stored ones (C03_accepted_below_stored, C07_issued_below_stored), so neither can be used again after recovery. Ordering and error dispositions of the real handlers are regenerated facts; crash and single-fault injection at every gate of the real uplink handler, join handler and encoder, followed by redelivery, runs on the real code under the gate controller.",
+        "note": "real process death and fsync are simulated (goroutines abandoned, database file reopened) / trusted",
+        "technique": "Lean 4 proof (durable-before-visible ordering; counter invariants over all event lists) + regenerated facts + crash/fault injection with trace correspondence",
     },
     "C11": {
         "level": "Lean theorem C11_phy_total: for every byte string of every length UnmarshalBinary's model returns a value or an error, never a panic (induction over the MAC-command loop with a cursor invariant); tied to pkg/protocol by regenerated facts and by differential decoding of >10k (quick) / >500k (thorough) byte strings incl. all 256x256 MHDR/FCtrl pairs, with 0..64 bytes spare capacity, outcome (ok/err kind/panic) compared.",
